@@ -11,7 +11,10 @@ import time
 VERIF = os.path.dirname(os.path.dirname(os.path.abspath(__file__)))
 REPO = os.environ.get("VERIF_REPO", "/repo")
 CACHE = os.path.join(VERIF, ".cache")
-WORK = os.path.join(VERIF, ".work")
+# self-tests that run concurrently with other checks use their own build directory (cargo target dirs are not shareable between
+# two simultaneous `cargo check` runs over different source trees)
+WORK = os.environ.get("VERIF_WORK_DIR", os.path.join(VERIF, ".work"))
+CACHE = os.environ.get("VERIF_CACHE_DIR", CACHE)
 SRCFACTS = os.path.join(VERIF, "tools/srcfacts/target/debug/srcfacts")
 
 
